@@ -57,6 +57,9 @@ pub enum SlinkyError {
     #[error("`single_segment_mode` requires exactly one segment, but {count} were given")]
     InvalidSegmentCountForSingleSegmentMode { count: usize },
 
+    #[error("The section '{section}' of `sections_subgroups` is a sub-group of itself")]
+    CyclicSectionsSubgroups { section: String },
+
     #[error("Segment '{segment}' references undefined vram class '{vram_class}'")]
     MissingVramClassForSegment {
         segment: Cow<'static, str>,
